@@ -29,6 +29,11 @@ type Opt<T> =
   | Some of T
   | None
 
+type V =
+  | P of int*string
+  | Q of R
+  | L of []int
+
 let trI (n:int) =
   frt.Printf1 "<%d>" n
   n
@@ -76,6 +81,8 @@ let nestO a b =
 
 let gv = 40 + 2
 
+let gz = 0
+
 let zzUseImports () =
   let d = dict.New<string, int> ()
   dict.Add d "k" 1
@@ -102,6 +109,7 @@ func PreludeProgram() *Program {
 		FuncDef{Name: "getGS", Params: []Param{{Name: "g"}}, Body: B(BinOp{"|>", BinOp{"|>", call("slice.Length", Field{Var{"g"}, "Vs"}), call("frt.Sprintf1", StrLit{"%d"})}, call("strings.AppendHead", Field{Var{"g"}, "V"})})},
 		FuncDef{Name: "nestO", Params: []Param{{Name: "a"}, {Name: "b"}}, Body: B(Ctor{Case: "Some", Arg: Tuple{[]Expr{Ctor{Case: "Some", Arg: Var{"a"}}, Ctor{Case: "Some", Arg: Var{"b"}}}}})},
 		VarDef{Name: "gv", Rhs: BinOp{"+", IntLit{40}, IntLit{2}}},
+		VarDef{Name: "gz", Rhs: IntLit{0}},
 	}}
 }
 
@@ -202,6 +210,7 @@ var FuncRetTypes = []Type{"int", "string", "bool", "unit", "[]int", "int*string"
 type FuncCase struct {
 	Def  FuncDef
 	Used map[string]int
+	Ret  Type // the result type the body was generated at (not written as an annotation in Def)
 }
 
 // BuildFuncCase enumerates a function with up to maxParams annotated parameters
@@ -228,7 +237,7 @@ func BuildFuncCase(g *Gen, fuel, maxParams int) *FuncCase {
 			g.C.Skip("unused parameter")
 		}
 	}
-	return &FuncCase{Def: fd, Used: g.Used}
+	return &FuncCase{Def: fd, Used: g.Used, Ret: rt}
 }
 
 // ParamRoles reports, per parameter name, the syntactic roles that need the
